@@ -587,8 +587,8 @@ Proof.
     + intros Hfx. rewrite Hfx. reflexivity.
   - destruct (s_init s) as [l|] eqn:Ei.
     + destruct Hinv as [Hh _]. specialize (Hh Hst).
-      inversion Hb; subst req s1; clear Hb. cbn. rewrite Hh. repeat split; auto; intros Hn; contradiction.
-    + inversion Hb; subst req s1; clear Hb. cbn. rewrite ?Ei. repeat split; auto; intros Hn; contradiction.
+      inversion Hb; subst req s1; clear Hb. cbn. rewrite Hh. repeat split; auto; exfalso; congruence.
+    + inversion Hb; subst req s1; clear Hb. cbn. rewrite ?Ei. repeat split; auto; exfalso; congruence.
 Qed.
 
 Lemma build_stateful s req s1 outs :
@@ -608,10 +608,10 @@ Proof.
   intros Hinv Hb. unfold build in Hb. unfold init_inv in Hinv.
   destruct (s_follow s) as [outs|] eqn:Ef.
   - destruct (s_init s) as [l|] eqn:Ei; [destruct Hinv as [_ Hn]; discriminate|].
-    destruct (g_stateless g); [inversion Hb; subst; cbn; exact Ei|].
-    destruct (s_prev s); [inversion Hb; subst; cbn; exact Ei | discriminate].
+    destruct (g_stateless g); [inversion Hb; subst; cbn; auto|].
+    destruct (s_prev s); [inversion Hb; subst; cbn; auto | discriminate].
   - destruct (s_init s) as [l|] eqn:Ei; [inversion Hb; subst; reflexivity|].
-    destruct (g_stateless g); inversion Hb; subst; exact Ei.
+    destruct (g_stateless g); inversion Hb; subst; auto.
 Qed.
 
 Lemma run_answers script s r :
@@ -710,38 +710,38 @@ Proof.
   rewrite E3, Hfx. apply drain_nodup.
 Qed.
 
+Lemma filter_len {A} (f : A -> bool) (l : list A) : (length (filter f l) <= length l)%nat.
+Proof. induction l as [|x r IH]; cbn [filter length]; [lia|]. destruct (f x); cbn [length]; lia. Qed.
+
 Lemma bound g valid tool prompt init script :
-  let r := run g valid tool prompt init script in
-  nlen (processed r) <= MAX_TOOL_CALLS /\
-  nlen (executed r) <= MAX_TOOL_CALLS /\
-  (length (sent r) <= 33)%nat /\
-  (res_reason r = MaxToolCalls -> nlen (processed r) = MAX_TOOL_CALLS).
+  nlen (processed (run g valid tool prompt init script)) <= MAX_TOOL_CALLS /\
+  nlen (executed (run g valid tool prompt init script)) <= MAX_TOOL_CALLS /\
+  (length (sent (run g valid tool prompt init script)) <= 33)%nat /\
+  (res_reason (run g valid tool prompt init script) = MaxToolCalls ->
+   nlen (processed (run g valid tool prompt init script)) = MAX_TOOL_CALLS).
 Proof.
-  cbv zeta.
   pose proof (run_bound _ _ _ _ _ _ _ (run_is_looprun g valid tool prompt init script)) as H.
   cbn [s_count lst0] in H. specialize (H ltac:(unfold MAX_TOOL_CALLS; lia)).
   destruct H as (H1 & H2 & H3). unfold MAX_TOOL_CALLS, nlen in *.
   repeat split.
   - lia.
-  - unfold executed. pose proof (filter_length_le x_ran (processed (run g valid tool prompt init script))). lia.
+  - unfold executed. pose proof (filter_len x_ran (processed (run g valid tool prompt init script))). lia.
   - unfold sent. rewrite map_length. lia.
   - intros Hm. specialize (H3 Hm). lia.
 Qed.
 
 Lemma invalid_never_sent g valid tool prompt init script :
-  let r := run g valid tool prompt init script in
-  (forall i q, nth_error (sent r) i = Some q -> valid (N.of_nat i) q = true) /\
-  (forall q, res_rejected r = Some q ->
-     res_reason r = InvalidRequest /\ valid (nlen (sent r)) q = false /\ ~ In q (sent r) \/
-     res_reason r = InvalidRequest /\ valid (nlen (sent r)) q = false).
+  (forall i q, nth_error (sent (run g valid tool prompt init script)) i = Some q -> valid (N.of_nat i) q = true) /\
+  (forall q, res_rejected (run g valid tool prompt init script) = Some q ->
+     res_reason (run g valid tool prompt init script) = InvalidRequest /\
+     valid (nlen (sent (run g valid tool prompt init script))) q = false).
 Proof.
-  cbv zeta.
   pose proof (run_valid _ _ _ _ _ _ _ (run_is_looprun g valid tool prompt init script)) as [H1 H2].
   cbn [s_idx lst0] in *. split.
   - intros i q Hi. unfold sent in Hi. rewrite nth_error_map in Hi.
     destruct (nth_error (res_iters (run g valid tool prompt init script)) i) as [it|] eqn:E; [|discriminate].
     inversion Hi; subst. specialize (H1 i it E). rewrite N.add_0_l in H1. exact H1.
-  - intros q Hq. right. destruct (H2 q Hq) as [J1 J2]. split; [exact J1|].
+  - intros q Hq. destruct (H2 q Hq) as [J1 J2]. split; [exact J1|].
     unfold sent, nlen in *. rewrite map_length. rewrite N.add_0_l in J2. exact J2.
 Qed.
 
